@@ -30,8 +30,10 @@
       assert_class_is_defined_in_file(Path(self.base_client_file_path), self.base_client_name)  -- 13
       assert_string_is_valid_python_identifier(self.enums_module_name)                          -- 14
       assert_string_is_valid_python_identifier(self.input_types_module_name)                    -- 15
-      for file_path in self.files_to_include: assert_path_is_valid_file(file_path)              -- 16
-      (fragments_module_name is never checked: finding C17-F2)
+      assert_string_is_valid_python_identifier(self.fragments_module_name)                      -- 16
+      for file_path in self.files_to_include: assert_path_is_valid_file(file_path)              -- 17
+      (check 16 was added by /repo 0686a80, which repaired finding C17-F2: until then
+       fragments_module_name was the only module-name option that was never checked)
 
   Domain: well-typed option values (strings for string options, booleans for flags, lists of
   strings, tables of strings); anything else is answered `.illTyped key` and is outside the
@@ -295,7 +297,7 @@ inductive ClientCheck where
   | queriesRequired | schemaSource | schemaPathExists | headers | commentMode | queriesPathExists
   | packageName | packagePathDir | clientName | clientFileName | baseClientName
   | baseClientPathExists | baseClientIsFile | baseClientClass | enumsModule | inputTypesModule
-  | filesToInclude
+  | fragmentsModule | filesToInclude
   deriving Repr, DecidableEq
 
 /-- execution order of `ClientSettings.__post_init__` -/
@@ -303,7 +305,7 @@ def ClientCheck.order : List ClientCheck :=
   [.queriesRequired, .schemaSource, .schemaPathExists, .headers, .commentMode, .queriesPathExists,
    .packageName, .packagePathDir, .clientName, .clientFileName, .baseClientName,
    .baseClientPathExists, .baseClientIsFile, .baseClientClass, .enumsModule, .inputTypesModule,
-   .filesToInclude]
+   .fragmentsModule, .filesToInclude]
 
 def identCheck (env : Env) (n : String) : Option ConfigError :=
   if validName env n then none else some (.badIdentifier n)
@@ -337,6 +339,7 @@ def evalClientCheck (env : Env) (s : ClientSettings) : ClientCheck → Option Co
       else some (.classNotInFile (baseClientData env s).1 (baseClientData env s).2)
   | .enumsModule => identCheck env s.enumsModuleName
   | .inputTypesModule => identCheck env s.inputTypesModuleName
+  | .fragmentsModule => identCheck env s.fragmentsModuleName
   | .filesToInclude => firstNonFile env s.filesToInclude
 
 /-- the first check (in order) that raises -/
